@@ -55,7 +55,7 @@ def inject(rng, s: str, n: int) -> str:
 
 
 def gen(rng, k):
-    entry = "h2" if k % 7 == 0 else rng.choice(["conn", "pool", "pm"])
+    entry = "h2" if k % 7 == 0 else rng.choice(["conn", "pool", "pm", "conn", "pool", "pm", "proxy"])
     nh = rng.choice([0, 1, 1, 2, 3])
     where = [rng.choice(["method", "url", "hname", "hvalue", "hvalue", "url", "body"]) for _ in range(nh)]
     method = rng.choice(METHODS)
@@ -93,6 +93,8 @@ def gen(rng, k):
         else:
             body = inject(rng, body or "b", 1)
     cont = rng.choice(["dict", "dict", "hhd"])
+    if entry in ("conn", "pool") and rng.random() < 0.12:
+        cont = "dict_bytes"  # a plain mapping whose field names are bytes (http.client takes them; the automatic-header logic must too)
     body_kind = "str"
     if body is not None and entry != "h2":
         c_ = rng.random()
@@ -106,16 +108,23 @@ def gen(rng, k):
             headers.append([rng.choice(["Transfer-Encoding", "transfer-encoding"]), "chunked"])
         # the same characters handed over in other shapes: bytes, or pieces (empty ones included, as str or bytes)
         body_kind = rng.choice(["str", "str", "str", "bytes", "iter_str", "iter_mixed"])
-    if cont == "dict":
+    if entry == "proxy":
+        # (a name both given a value and suppressed is contradictory input; through a ProxyManager the two would be combined into
+        #  one field before the pool sees the suppression marker -- not a case the statement speaks about)
+        valued = {h[0].lower() for h in headers if h[1] != SKIP}
+        headers = [h for h in headers if not (h[1] == SKIP and h[0].lower() in valued)]
+    if cont in ("dict", "dict_bytes"):
         seen = set()
         headers = [h for h in headers if not (h[0] in seen or seen.add(h[0]))]
+    if cont == "dict_bytes":
+        headers = [h for h in headers if all(ord(ch) < 256 for ch in h[0])]
     sc = {"property": ID, "entry": entry, "method": method, "path": path, "headers": headers, "container": cont, "body": body, "hostile": nh}
     if not headers and entry != "h2" and rng.random() < 0.5:
         sc["no_headers_arg"] = True  # headers=None rather than an empty mapping
     if body_kind != "str":
         sc["body_kind"] = body_kind
         sc["body_cuts"] = sorted(rng.randrange(0, len(body) + 1) for _ in range(rng.choice([1, 2, 3])))
-    if entry in ("h2", "pool", "pm"):
+    if entry in ("h2", "pool", "pm", "proxy"):
         sc["second"] = rng.random() < 0.5
     if entry in ("pool", "pm") and rng.random() < 0.3:
         sc["warm"] = True
@@ -157,6 +166,8 @@ def _mk_headers(sc):
         for k, v in sc["headers"]:
             h.add(k, v)
         return h
+    if sc["container"] == "dict_bytes":
+        return {k.encode("latin-1"): v for k, v in sc["headers"]}
     return {k: v for k, v in sc["headers"]}
 
 
@@ -233,6 +244,10 @@ def run(sc: dict) -> Result:
                     p.request(method, path, json=sc["json"], headers=hdrs, retries=False)
                 else:
                     p.urlopen(method, path, body=body, headers=hdrs, retries=False)
+            elif entry == "proxy":
+                # a forwarding proxy: the same request in absolute-form, with the manager's own automatic lines (Host, Accept)
+                pm = holder["obj"] = urllib3.ProxyManager("http://proxy.test:3128", timeout=3.0)
+                pm.request(method, "http://h.test" + path, body=body, headers=hdrs, retries=False)
             else:
                 pm = holder["obj"] = holder["obj"] or urllib3.PoolManager(timeout=3.0)
                 if sc.get("json") is not None:
@@ -291,7 +306,9 @@ def run(sc: dict) -> Result:
                 if sc.get("reuse_headers"):
                     own |= {k_.lower().encode("latin-1", "replace") for k_, v_ in sc["headers"] if v_ != SKIP}
                     res.probes["headers_object_reused"] += 1
-                if q2["method"] != b"GET" or q2["target"] != b"/follow" or not names <= own or b"x-second" not in names:
+                if entry == "proxy":
+                    own = own | {b"accept"}
+                if q2["method"] != b"GET" or q2["target"] != (b"http://h.test/follow" if entry == "proxy" else b"/follow") or not names <= own or b"x-second" not in names:
                     res.bad("follow_up_carries_foreign_lines", f"GET /follow went out as {q2['method']!r} {q2['target']!r} with fields {q2['fields']!r}")
                 else:
                     res.probes["follow_up_clean_after_rejection" if err is not None else "follow_up_clean"] += 1
@@ -337,12 +354,14 @@ def run(sc: dict) -> Result:
 
 def check_request(sc, req, res, entry):
     method, path = sc["method"], sc["path"]
-    want_method = method.upper() if entry == "pm" else method
+    want_method = method.upper() if entry in ("pm", "proxy") else method
     if req["method"] != want_method.encode("latin-1", "replace"):
         res.bad("request_line_changed:method", f"sent {req['method']!r}, requested {want_method!r}")
     tgt = req["target"].decode("ascii")
     if entry == "conn":
         ok_targets = {path}
+    elif entry == "proxy":
+        ok_targets = {"http://h.test" + x for x in HW.ref_targets(path)}
     else:
         ok_targets = HW.ref_targets(path)
     if tgt not in ok_targets:
@@ -372,6 +391,12 @@ def check_request(sc, req, res, entry):
         else:
             extras.append((name, value))
     for name, vals in want_by_name.items():
+        nosp = lambda b_: b_.replace(b" ", b"").replace(b"\t", b"")  # noqa: E731
+        if entry == "proxy" and len(vals) > 1 and len(got_by_name.get(name, [])) == 1 and nosp(got_by_name[name][0]) == b",".join(nosp(v_) for v_ in vals):
+            # a ProxyManager hands the pool a plain dict: same-name fields of an HTTPHeaderDict arrive combined into one
+            # comma-separated line (RFC 9110 5.3 lets a sender do that); left as "either"
+            res.probes["proxy_combined_repeated_field"] += 1
+            continue
         if got_by_name.get(name, []) != vals:
             res.bad("header_missing_or_altered", f"caller field {name!r} values {vals!r}, on the wire {got_by_name.get(name)!r}; all wire fields {got!r}")
             return
@@ -387,6 +412,8 @@ def check_request(sc, req, res, entry):
     if "content-length" not in keys and "transfer-encoding" not in keys:
         allowed[b"content-length"] = lambda v: v.isdigit()
         allowed[b"transfer-encoding"] = lambda v: v == b"chunked"
+    if entry == "proxy" and "accept" not in keys:
+        allowed[b"accept"] = printable  # (a ProxyManager adds Accept to forwarded requests, like Host only when the caller gave none)
     if sc.get("json") is not None and "content-type" not in keys:
         allowed[b"content-type"] = lambda v: v == b"application/json"
     if entry == "pm" and sc["body"] is None and False:
